@@ -10,16 +10,72 @@ usage: python -m harness.farm_h <jobs.json> <out.ndjson>
 '''
 
 import json
+import os
+import subprocess
 import sys
+import types
 
 from harness import sched_h
 from harness.sched_h import ALL, World, farm, message, new_obs, schedule
 from vlib import engine
 
 import dawgie.context
+import dawgie.db
+import dawgie.pl.state
+
+os.environ.pop('DAWGIE_DOCKERIZED_AE_GIT_REVISION', None)
 
 DESC = engine.simple([('a', 'task', []), ('b', 'task', ['a']), ('r', 'regress', ['a'])])
 ALGS = ['t0.a', 't1.b', 't2.r']
+
+
+class Checkout:
+    '''a real scratch git repository (the engine checkout) with one commit per model revision; the harness moves it with
+    its own git calls and reads HEAD back with its own git call (ground truth) -- the pipeline learns the revision only
+    through the real code (dawgie.context._rev at start-up, FSM._reload at an update)'''
+
+    def __init__(self, root, names):
+        self.root = root
+        self.env = dict(os.environ, GIT_AUTHOR_NAME='v', GIT_AUTHOR_EMAIL='v@v', GIT_COMMITTER_NAME='v', GIT_COMMITTER_EMAIL='v@v', GIT_CONFIG_NOSYSTEM='1', HOME=root)
+        os.makedirs(os.path.join(root, 'ae'))
+        self.git('init', '-q')
+        self.sha, self.name = {}, {}
+        for n in names:
+            with open(os.path.join(root, 'ae', '__init__.py'), 'wt', encoding='utf-8') as f:
+                f.write(f'# software revision {n}\n')
+            self.git('add', '-A')
+            self.git('commit', '-q', '-m', n)
+            self.sha[n] = self.git('rev-parse', 'HEAD')
+            self.name[self.sha[n]] = n
+        self.head = self.name[self.git('rev-parse', 'HEAD')]
+
+    def git(self, *args):
+        return subprocess.check_output(['git', '-C', self.root] + list(args), env=self.env, stderr=subprocess.STDOUT).decode().strip()
+
+    def move(self, n):
+        if self.head != n:
+            self.git('checkout', '-q', '--detach', self.sha[n])
+            self.head = self.name[self.git('rev-parse', 'HEAD')]
+
+
+CO = [None]
+
+
+def checkout():
+    if CO[0] is None:
+        CO[0] = Checkout(os.path.join(sched_h.WORK, 'checkout'), ['rev0', 'rev1'])
+    return CO[0]
+
+
+def real_reload():
+    '''pl/state.py FSM._reload on a bare object: db.close(); context.git_rev = context._rev(); time_machine.reload()'''
+    fsm = types.SimpleNamespace(_FSM__doctest=False, time_machine=types.SimpleNamespace(reload=lambda: None))
+    orig = dawgie.db.close
+    dawgie.db.close = lambda: None
+    try:
+        dawgie.pl.state.FSM._reload(fsm)
+    finally:
+        dawgie.db.close = orig
 
 
 class FarmFsm(sched_h.Fsm):
@@ -42,6 +98,20 @@ class FarmWorld(World):
         self.mids = {}  # harness wid -> model id
         self.mseq = 0
         self.tried = set()
+        # pipeline start-up on the engine checkout at its first commit: what dawgie.context.override() does
+        self.co = checkout()
+        self.co.move('rev0')
+        self.ae_base_path = dawgie.context.ae_base_path
+        dawgie.context.ae_base_path = os.path.join(self.co.root, 'ae')
+        dawgie.context.git_rev = dawgie.context._rev()
+
+    def close(self):
+        super().close()
+        dawgie.context.ae_base_path = self.ae_base_path
+        dawgie.context.git_rev = 'rev0'
+
+    def sha(self, rev):
+        return self.co.sha[rev]
 
     def mid(self, wid):
         return self.mids.get(wid, 0)
@@ -67,6 +137,8 @@ class FarmWorld(World):
                     idle.append(self.mid(wid))
         st['idle_ids'] = idle
         st['phase'] = self.fsm.phase
+        st['rev'] = self.co.name.get(dawgie.context.git_rev, str(dawgie.context.git_rev))  # what the farm compares with
+        st['head'] = self.co.head  # where the checkout really is
         for u in st['inflight']:
             u['w'] = self.mid(u['w'])
         return st
@@ -90,11 +162,11 @@ def run_job(job):
                 ok = wid is not None and w.workers[wid]['connected'] and not w.workers[wid]['registered'] and wid not in w.tried
                 if ok:
                     w.tried.add(wid)
-                    w.ev_register(e['rev'], wid)
+                    w.ev_register(w.sha(e['rev']), wid)
                     w.obs['wid'] = w.mid(wid)
             elif ev == 'Poll':
-                wid = w.model_worker(e['rev'])
-                w.feed(wid, message.make(typ=message.Type.status, rev=e['rev']))
+                wid = w.model_worker(w.sha(e['rev']))
+                w.feed(wid, message.make(typ=message.Type.status, rev=w.sha(e['rev'])))
                 w.settle()
                 w.obs['wid'] = w.mid(wid)
             elif ev == 'Lost':
@@ -114,7 +186,9 @@ def run_job(job):
                 w.fsm.active = False
                 w.fsm.phase = 'updating'
             elif ev == 'RevChange':
-                dawgie.context.git_rev = e['rev']
+                # the update: gitting moves the engine checkout, then the REAL reload re-reads the revision from it
+                w.co.move(e['rev'])
+                real_reload()
             elif ev == 'Load':
                 w.fsm.phase = 'loading'
                 w.ev_reload([])
@@ -139,7 +213,6 @@ def run_job(job):
         final = {'skipped': skipped}
     finally:
         w.close()
-        dawgie.context.git_rev = 'rev0'
     return {'tid': job['id'], 'targets': job['targets'], 'steps': steps, 'final': final}
 
 
